@@ -35,11 +35,11 @@ def R(what):
 
 PROPS = {
     "C01": {"level": "exploration", "trigger": ["c01.mutations"],
-        "batches": [sim("benign", 150, 3000), sim("faulty", 150, 4000), sim("lifecycle", 100, 2000), sim("multiterm", 100, 2000), sim("priorace", 100, 2000), sim("c06", 144, 2880), sim("leftover", 60, 600), sim("yieldstop", 190, 570), sim("connection", 200, 3000), sim("holdrace", 350, 3500), sim("twocause", 126, 126), sim("outage", 24, 240), sim("slowdemote", 126, 252)],
+        "batches": [sim("benign", 150, 3000), sim("faulty", 150, 4000), sim("lifecycle", 100, 2000), sim("multiterm", 100, 2000), sim("priorace", 100, 2000), sim("c06", 144, 2880), sim("leftover", 60, 600), sim("yieldstop", 190, 570), sim("connection", 200, 3000), sim("holdrace", 350, 3500), sim("twocause", 126, 126), sim("outage", 24, 240), sim("slowdemote", 126, 252), sim("doublestop", 18, 180), sim("chaintakeover", 12, 120)],
         "min": {"quick": {"c01.refreshes": 200, "c01.takeovers": 20, "c01.shutdown_deletes": 20, "c01.expiries": 20}},
         "rule": R("oracle over the complete caller-tagged mutation log of the reference store: every successful Create/Update/Delete must fit creation / refresh / legitimate takeover / owner's shutdown delete"), "assumptions": SIM_ASSUME},
     "C02": {"level": "exploration", "trigger": ["c02.flag_up"],
-        "batches": [sim("benign", 500, 12000), sim("yieldstop", 190, 570), sim("leftover", 150, 1500), sim("holdrace", 350, 3500), sim("twoinflight", 24, 240), sim("outage", 24, 240), sim("slowdemote", 126, 252)],
+        "batches": [sim("benign", 500, 12000), sim("yieldstop", 190, 570), sim("leftover", 150, 1500), sim("holdrace", 350, 3500), sim("twoinflight", 24, 240), sim("outage", 24, 240), sim("slowdemote", 126, 252), sim("doublestop", 18, 180)],
         "min": {"quick": {"c02.terms": 300, "c02.stops": 100, "c02.stops_inflight": 30}},
         "rule": R("benign class: 1-5 instances x 1-2 groups, H/TTL grid, latency < H/2, watch delay/drop/dup, random Start/Stop/StopWithContext/restart; oracle: instant cross-read of every instance's IsLeader() and the live record inside Metrics.SetIsLeader and at every record change/expiry"), "assumptions": SIM_ASSUME},
     "C03": {"level": "fault_enumeration", "trigger": ["c03.a_obligations", "c03.b_obligations"],
@@ -59,7 +59,7 @@ PROPS = {
         "min": {"quick": {"c06.vacancies": 150, "c06.obligations": 300}},
         "rule": R("c06 class enumerates removal kind (6) x candidate transient fault (6) x watch policy (4) x 2 passes; oracle: at every vacancy start / fault-cease / settle / demotion instant with a healthy settled instance, a healthy instance claims within B = 500ms + 100ms + 8 legs (+ callback delay)"), "assumptions": SIM_ASSUME},
     "C07": {"level": "exploration", "trigger": ["c07.terms"],
-        "batches": [sim("benign", 500, 12000), sim("yieldstop", 190, 570), sim("leftover", 150, 1500), sim("holdrace", 350, 3500), sim("slowdemote", 126, 252)],
+        "batches": [sim("benign", 500, 12000), sim("yieldstop", 190, 570), sim("leftover", 150, 1500), sim("holdrace", 350, 3500), sim("slowdemote", 126, 252), sim("doublestop", 18, 180)],
         "min": {"quick": {"c07.terms": 300, "c07.terms_20h": 100}},
         "rule": R("benign class (see C02); oracle: no term ends, no token change, no lapse/owner change of a claiming leader's record unless the harness stopped it"), "assumptions": SIM_ASSUME},
     "C08": {"level": "exploration", "trigger": ["c08.promotes"],
@@ -67,11 +67,11 @@ PROPS = {
         "min": {"quick": {"c08.promotes": 500, "c08.demotes": 300, "c08.quiescent_checks": 5000}},
         "rule": R("oracle over the ordered callback log: strict alternation, one promotion per term with its token, IsLeader == (promotions - demotions == 1) at every quiescent point outside stop calls"), "assumptions": SIM_ASSUME},
     "C09": {"level": "fault_enumeration", "trigger": ["c09.stop_calls"],
-        "batches": [sim("stoppoints", 500, 2280), sim("yieldstop", 190, 570), sim("restartinflight", 72, 216), sim("lifecycle", 150, 3000), sim("benign", 100, 1500), sim("slowsink", 57, 570), sim("holdrace", 350, 3500), sim("twoinflight", 24, 240), sim("slowdemote", 126, 252)],
+        "batches": [sim("stoppoints", 500, 2280), sim("yieldstop", 190, 570), sim("restartinflight", 72, 216), sim("lifecycle", 150, 3000), sim("benign", 100, 1500), sim("slowsink", 57, 570), sim("holdrace", 350, 3500), sim("twoinflight", 24, 240), sim("slowdemote", 126, 252), sim("doublestop", 18, 180)],
         "min": {"quick": {"c09.stop_ok": 400, "c09.final_census": 500}},
         "rule": R("stoppoints enumerates (template cell: 20) x phase (issued-not-applied, applied-not-answered) x stop variant (17) x release delay (3) = 2040 cases (thorough: all); oracle: after the return of a successful stop no leadership claim, promotion, store-operation issue or transition; duration bounds; record gone with DeleteKey; no library goroutine left at the end"), "assumptions": SIM_ASSUME},
     "C10": {"level": "exploration", "trigger": ["c10.takeovers", "c10.refused", "c10.prompt_obligations"],
-        "batches": [sim("priority", 405, 1620), sim("priorace", 150, 3000), sim("multiterm", 60, 1000), sim("priosucc", 256, 1536), sim("holdrace", 350, 3500)],
+        "batches": [sim("priority", 405, 1620), sim("priorace", 150, 3000), sim("multiterm", 60, 1000), sim("priosucc", 256, 1536), sim("holdrace", 350, 3500), sim("chaintakeover", 12, 120)],
         "min": {"quick": {"c10.takeovers": 100, "c10.prompt_obligations": 50}},
         "rule": R("priority class enumerates all assignments of priority {1,2,3} x takeover flag x start order for 2 instances (108) and 3 instances (1512) (thorough: all, exhaustive); priorace adds takeover racing the incumbent's heartbeat; oracle: safety over every replacement of a live record, promptness 3H and final owner/stability in the fault-free class"), "assumptions": SIM_ASSUME},
     "C11": {"level": "fault_enumeration", "trigger": ["c11.notifications"],
